@@ -71,6 +71,22 @@ def configs(tier, apis, sizes, menu):
     return out
 
 
+def acks0_configs():
+    """Produce without acknowledgements: nothing comes back, so only connection-level failures tell the payloads
+    of an unreachable broker from those that were handed over."""
+    out = []
+    for assign in layouts():
+        if max(assign) == 0:
+            continue
+        for keys in ([PARTS[0], PARTS[1], PARTS[2]], [PARTS[3], PARTS[0]], list(PARTS)):
+            out.append({"cluster": cluster_for(assign), "discovery": False, "timeout_ms": 2000,
+                        "script": [["call", "produce", payload("produce", keys), {"foe": False, "acks": 0}],
+                                   ["call", "produce", payload("produce", keys[::-1]), {"foe": True, "acks": 0}]],
+                        "menu": {"refuse": True, "hang": True, "drop": True, "timer_early": True, "reorder": True},
+                        "expect_failure": True})
+    return out
+
+
 def leaderless_configs():
     out = []
     for assign in [(0, 1, 0, 1), (0, 0, 1, 2)]:
@@ -98,6 +114,25 @@ def idle_drop_configs():
                                        ["call", api, payload(api, keys), {"foe": False}],
                                        ["call", api, payload(api, keys[::-1]), {"foe": False}]],
                             "menu": {"reorder": True}})
+    return out
+
+
+def return_configs():
+    """A broker disappears from the cluster (a full refresh no longer lists it), later comes back under the same
+    node id and leads its partitions again: calls must reach it on a new connection."""
+    out = []
+    for assign in [(0, 1, 2, 2), (0, 1, 0, 2), (0, 0, 1, 1)]:
+        cl = cluster_for(assign)
+        for victim in cl["brokers"]:
+            for api in ("produce", "fetch"):
+                keys = list(PARTS)
+                out.append({"cluster": cl, "discovery": False, "timeout_ms": 2000, "warm": [["t", "u"], []],
+                            "warm_connect": True,
+                            "script": [["cluster", "down", victim], ["call", "metadata", []],
+                                       ["cluster", "up", victim], ["call", "metadata", []],
+                                       ["call", api, payload(api, keys), {"foe": False}],
+                                       ["call", api, payload(api, keys[::-1]), {"foe": False}]],
+                            "menu": {"reorder": True, "timer_early": True}})
     return out
 
 
@@ -132,11 +167,13 @@ RULE = ("real KafkaClient; clusters: every map of partitions t/0,t/1,u/0,u/1 ont
         "leaderless variants, coordinator on the last broker; calls: produce/fetch (all maps, every ordering of every "
         "payload subset of size 1-3) and list-offsets/offset-fetch/offset-commit (size 2); deviations: per broker refuse/"
         "drop/silent/error (so every subset of failing brokers within the fault bound), replies in any cross-broker "
-        "order, timers overtaking I/O; broker-agnostic metadata calls with every subset of brokers down, cold and "
+        "order, timers overtaking I/O; a connection lost while idle; a broker leaving the cluster and returning under "
+        "the same node id between full refreshes; broker-agnostic metadata calls with every subset of brokers down, cold and "
         "warmed-up, every rotation of the shuffle seam.  Oracle: each payload is written to the leader named by the "
         "latest metadata answer delivered to the client (coordinator for group requests), one request per broker per "
         "call, no foreign payloads; success returns one response per payload in payload order; FailedPayloadsError's "
-        "responses + failed_payloads partition the input exactly once each, responses in payload order; a "
+        "responses + failed_payloads partition the input exactly once each, responses in payload order; with acks=0 "
+        "success means every payload was written to a connection and failed_payloads are exactly the unwritten ones; a "
         "KafkaUnavailableError is preceded by an attempt on every known broker (connected ones first) and every "
         "bootstrap host.")
 ASSUME = ["SimCluster is Kafka", "<= 3 brokers, 4 partitions; bounds in the notes"]
@@ -148,16 +185,20 @@ def run(tier, seed, only=None):
                  ("offsets-group-2dev", configs(tier, ["offsets", "offset_fetch", "offset_commit"], (2,), MENU)[::2],
                   (1, 1, 2)),
                  ("produce-2faults", configs(tier, ["produce"], (3,), MENU)[::5], (2, 0, 2)),
+                 ("produce-acks0", acks0_configs(), (1, 1, 2)),
                  ("leaderless", leaderless_configs(), (0, 1, 1)),
                  ("idle-drop-then-call", idle_drop_configs(), (0, 1, 1)),
+                 ("broker-leaves-and-returns", return_configs(), (0, 1, 1)),
                  ("broker-agnostic", agnostic_configs(), (1, 1, 1))]
     else:
         plans = [("produce-fetch-2dev", configs(tier, ["produce", "fetch"], (1, 2, 3), MENU), (2, 1, 2)),
                  ("offsets-group-2dev", configs(tier, ["offsets", "offset_fetch", "offset_commit"], (2, 3), MENU),
                   (2, 1, 2)),
                  ("produce-3faults", configs(tier, ["produce"], (3, 4), MENU)[::3], (3, 0, 3)),
+                 ("produce-acks0", acks0_configs(), (2, 1, 3)),
                  ("leaderless", leaderless_configs(), (1, 1, 2)),
                  ("idle-drop-then-call", idle_drop_configs(), (1, 1, 2)),
+                 ("broker-leaves-and-returns", return_configs(), (1, 1, 2)),
                  ("broker-agnostic", agnostic_configs(), (2, 1, 2))]
     if only:
         plans = [p for p in plans if p[0] in only]
